@@ -90,6 +90,8 @@ REWRITES = [
     Rewrite('R40-orguard', r'local_name!\("td"\) \| local_name!\("th"\) if !last => (\{\s*return InsertionMode::InCell;\s*\}),',
             r'local_name!("td") if !last => { return InsertionMode::InCell; }, local_name!("th") if !last => \1,'),
     Rewrite('R6-clone', r'\b(\w+)\.attrs\.clone\(\)', r'attrs_clone(&\1.attrs)'),
+    # R16: std::mem::take on an attribute vector through a glue function (the value moves out, an empty vector stays)
+    Rewrite('R16-take', r'(?:std::)?mem::take\(&mut (\w+)\.attrs\)', r'attrs_take(&mut \1.attrs)'),
     # the local tag set `implied` = cursory_implied_end minus "p" is a model function (stack.spec.rs); declare_tag_set!
     # expansions are checked by U-tagsets
     Rewrite('R39-localset', r'declare_tag_set!\(implied = [^;]*\);', '', min_count=1),
